@@ -692,3 +692,34 @@ var mapRotation atomic.Int64
 
 // SetMapRotation rotates every sorted map iteration by n positions (a harness-owned choice).
 func SetMapRotation(n int) { mapRotation.Store(int64(n)) }
+
+// AliveDaemonSites returns the last scheduling site of every spawned thread that has not finished.
+func AliveDaemonSites() []string {
+	s := cur()
+	if s == nil {
+		return nil
+	}
+	var r []string
+	for _, t := range s.threads {
+		if t.daemon && !t.done {
+			r = append(r, t.site)
+		}
+	}
+	return r
+}
+
+// AliveDaemons returns how many spawned (daemon) threads have not finished yet. Callable from a
+// logical thread during a controlled execution.
+func AliveDaemons() int {
+	s := cur()
+	if s == nil {
+		return -1
+	}
+	n := 0
+	for _, t := range s.threads {
+		if t.daemon && !t.done {
+			n++
+		}
+	}
+	return n
+}
